@@ -426,3 +426,36 @@ Proof.
       apply (Permutation_in _ (Permutation_sym Hi)) in Hb. rewrite E in Hb. destruct Hb.
     + reflexivity.
 Qed.
+
+(* ---- create_topologies_archive looks a row up by (topology string, count, max, iter, chain_num) and
+   asserts that exactly one row matches: (chain_num, iter) alone already identifies the row, because the
+   pointers of distinct rows are entries of distinct trees (chain keys are dictionary keys: distinct) ---- *)
+Lemma nodup_map_inj {A B} (f : A -> B) (l : list A) a b :
+  NoDup (map f l) -> In a l -> In b l -> f a = f b -> a = b.
+Proof.
+  induction l as [|x l IH]; cbn [map]; intros Hn Ha Hb E; [destruct Ha|].
+  inversion Hn as [|? ? Hx Hn']; subst. destruct Ha as [->|Ha], Hb as [->|Hb].
+  - reflexivity.
+  - exfalso. apply Hx. rewrite E. now apply in_map.
+  - exfalso. apply Hx. rewrite <- E. now apply in_map.
+  - now apply IH.
+Qed.
+Lemma fst_functional {A B} (l : list (A * B)) a b b' :
+  NoDup (map fst l) -> In (a, b) l -> In (a, b') l -> b = b'.
+Proof.
+  intros Hn H1 H2. assert (E : (a, b) = (a, b')) by (apply (nodup_map_inj fst l); auto). congruence.
+Qed.
+
+Theorem pointer_identifies_row tr r1 r2 : NoDup (map fst tr) ->
+  In r1 (topologies tr) -> In r2 (topologies tr) ->
+  rchain r1 = rchain r2 -> riter r1 = riter r2 -> r1 = r2.
+Proof.
+  intros Hk H1 H2 Ec Ei. destruct (topo_rows_are_classes tr) as (Hnd & _ & Hok & _).
+  destruct (Hok r1 H1) as (_ & _ & _ & (x1 & Hx1 & Ht1 & _ & Hc1 & Hi1)).
+  destruct (Hok r2 H2) as (_ & _ & _ & (x2 & Hx2 & Ht2 & _ & Hc2 & Hi2)).
+  apply items_spec in Hx1 as (ch1 & Hin1 & Hn1). apply items_spec in Hx2 as (ch2 & Hin2 & Hn2).
+  assert (Ech : ichain x1 = ichain x2) by congruence. rewrite Ech in Hin1.
+  assert (ch1 = ch2) by (eapply fst_functional; eassumption). subst ch2.
+  assert (Eix : iidx x1 = iidx x2) by congruence. rewrite Eix in Hn1. rewrite Hn1 in Hn2.
+  apply (nodup_map_inj rtree (topologies tr)); [exact Hnd| exact H1| exact H2|]. congruence.
+Qed.
